@@ -285,4 +285,19 @@ theorem source_called_no_uncertainty (pred fracPos fracNeg lq : ℚ) :
   unfold Gen.C08.potential_loss Gen.C08.potential_gain
   simp
 
+/-- **C08 on the source, independent-contests mode** (`national_summary_correlation = False`): a called contest that is not stop-listed
+    contributes no uncertainty, whatever the states of the two quantile realisations -/
+theorem source_called_no_uncertainty_independent (pred : ℚ) (lowS upS : Bool) :
+    Gen.C08.potential_loss_independent pred lowS upS false false = 0 ∧
+    Gen.C08.potential_gain_independent pred lowS upS false false = 0 := by
+  unfold Gen.C08.potential_loss_independent Gen.C08.potential_gain_independent
+  simp
+
+/-- in both modes a contest's loss and gain are 0 or 1: each bound is at most the weights of the other contests away from the prediction -/
+theorem source_loss_gain_range_independent (pred : ℚ) (lowS upS uncalled stop : Bool) :
+    (Gen.C08.potential_loss_independent pred lowS upS uncalled stop = 0 ∨ Gen.C08.potential_loss_independent pred lowS upS uncalled stop = 1) ∧
+    (Gen.C08.potential_gain_independent pred lowS upS uncalled stop = 0 ∨ Gen.C08.potential_gain_independent pred lowS upS uncalled stop = 1) := by
+  unfold Gen.C08.potential_loss_independent Gen.C08.potential_gain_independent
+  by_cases hp : pred > 0 <;> cases lowS <;> cases upS <;> cases uncalled <;> cases stop <;> simp [boolToRat, hp]
+
 end ElexModel.NatSum
